@@ -1629,7 +1629,85 @@ class PathResult:
         )
 
 
+# ---- every path is an independent execution: mutable module-level / class-level containers of the repository's modules (caches,
+# memo tables, registries filled at import) are put back to their state after import before each symbolic path and each concrete
+# replay, as a fresh process would have them.  What a harness wants to observe across calls it does inside one path.
+_GLOBALS_SNAPSHOT = {}
+_GLOBALS_PREFIX = "acnportal"
+
+
+def _mutable_slots():
+    import collections.abc as _abc
+    import weakref as _weakref
+
+    kinds = (_abc.MutableMapping, _abc.MutableSequence, _abc.MutableSet, _weakref.WeakKeyDictionary, _weakref.WeakValueDictionary)
+    for mname, m in list(_sys.modules.items()):
+        if m is None or not (mname == _GLOBALS_PREFIX or mname.startswith(_GLOBALS_PREFIX + ".")) or ".tests" in mname:
+            continue
+        for k, v in list(vars(m).items()):
+            if k.startswith("__"):
+                continue
+            if isinstance(v, kinds) and not isinstance(v, _np.ndarray):
+                yield (mname, k), v
+            elif isinstance(v, type) and getattr(v, "__module__", None) == mname:
+                for ck, cv in list(vars(v).items()):
+                    if not ck.startswith("__") and isinstance(cv, kinds) and not isinstance(cv, _np.ndarray):
+                        yield (mname, k, ck), cv
+
+
+def _copy_container(v):
+    import collections.abc as _abc
+
+    if isinstance(v, _abc.MutableMapping):
+        return dict(v.items())
+    return list(v)
+
+
+def import_all_repo_modules():
+    import importlib as _il
+    import pkgutil as _pk
+
+    try:
+        pkg = _il.import_module(_GLOBALS_PREFIX)
+    except Exception:
+        return
+    for mi in _pk.walk_packages(pkg.__path__, _GLOBALS_PREFIX + "."):
+        if ".tests" in mi.name or mi.name.endswith(".tests"):
+            continue
+        try:
+            _il.import_module(mi.name)
+        except BaseException:
+            pass
+
+
+def restore_repo_globals():
+    import collections.abc as _abc
+
+    for key, v in _mutable_slots():
+        if key not in _GLOBALS_SNAPSHOT:
+            _GLOBALS_SNAPSHOT[key] = (v, _copy_container(v))
+            continue
+        obj, saved = _GLOBALS_SNAPSHOT[key]
+        if obj is not v:  # rebound since the snapshot: keep the new object but give it the pristine contents
+            _GLOBALS_SNAPSHOT[key] = (v, saved)
+        try:
+            if isinstance(v, _abc.MutableMapping):
+                if len(v) != len(saved) or any(k not in v or v[k] is not saved[k] for k in saved):
+                    v.clear()
+                    v.update(saved)
+            elif isinstance(v, _abc.MutableSet):
+                if set(v) != set(saved):
+                    v.clear()
+                    v.update(saved)
+            else:
+                if len(v) != len(saved) or any(a is not b for a, b in zip(v, saved)):
+                    v[:] = saved
+        except Exception:
+            pass
+
+
 def run_path(harness, prefix, params, seed=0):
+    restore_repo_globals()
     c = Ctx("sym", prefix=prefix, seed=seed)
     Ctx.cur = c
     pr = PathResult()
@@ -1665,6 +1743,7 @@ def run_path(harness, prefix, params, seed=0):
 
 def run_concrete(harness, assignment, params):
     """run the same harness on plain Python numbers; environment stubs marked sym_only are NOT installed"""
+    restore_repo_globals()
     c = Ctx("conc", assignment=assignment)
     prev = Ctx.cur
     Ctx.cur = c
@@ -1759,6 +1838,9 @@ def interior_model(c, eps="1/100000"):
 def explore(harness, params=None, max_paths=20000, timeout=600.0, validate=True, seed=0, stop_on_violation=False):
     """DFS over all feasible paths of harness(cx, **params)."""
     params = params or {}
+    if not _GLOBALS_SNAPSHOT:
+        import_all_repo_modules()  # so that the first snapshot is the state after import
+        restore_repo_globals()
     stack = [[]]
     t0 = time.time()
     results = []
